@@ -68,6 +68,18 @@ def run(rep, db, tier):
         return UNIT
     ex.model_path('zksync_consensus_network::noise::bytes::Buffer::take', take)
 
+    # ---- read permits: the drop glue of Frame / Option<Frame> is executed (real MIR); the permit's own drop is the observation
+    ex.drop_types = [r'drop_in_place::<(std::option::Option<)?zksync_consensus_network::mux::reusable_stream::(Frame|ReadPermit)>']
+    def permit_drop(e, n, a):
+        v = a[0]
+        while isinstance(v, Ref): v = v.get()
+        if isinstance(v, Agg) and v.variant == 1 and v.fields: v = v.fields[0]
+        if isinstance(v, PermitV) and v.dropped_at is None:
+            v.dropped_at = (v.buf.len, len(log())); log().append(('permit_dropped', v))
+        return UNIT
+    ex.model(r'std::ptr::drop_in_place::<(std::option::Option<)?zksync_consensus_network::mux::reusable_stream::ReadPermit>+', permit_drop)
+    ex.model(r'std::ptr::drop_in_place::<(std::option::Option<)?zksync_consensus_network::noise::bytes::Buffer>+', lambda e, n, a: UNIT)
+
     # ---- frame channel
     def recv(e, n, a):
         def respond(e2):
@@ -84,7 +96,9 @@ def run(rep, db, tier):
             if c == 3:
                 fb = BufV(e2, f'frame{s["recvs"]}'); e2.assume(z3.And(fb.len.e >= 1, fb.len.e <= fb.cap.e, fb.cap.e <= 65535))
                 data = some(fb)
-            fr = mk.adt(r'zksync_consensus_network::mux::reusable_stream::Frame', header=hdr, data=data, _permit=none())
+            pm = none()
+            if c == 3: pv_ = PermitV(fb); s['permits'].append(pv_); pm = some(pv_)
+            fr = mk.adt(r'zksync_consensus_network::mux::reusable_stream::Frame', header=hdr, data=data, _permit=pm)
             log().append(('frame', ['open', 'data', 'close'][c - 2], data.fields[0] if c == 3 else None))
             return ready(ok(ok(fr)))
         return EnvFuture('frame channel', respond)
@@ -100,14 +114,15 @@ def run(rep, db, tier):
     rrs_t = mk.ty(r'zksync_consensus_network::mux::reusable_stream::ReadReusableStream')
 
     def body(ex):
-        s = dict(log=[], recvs=0, max_recvs=2); cur[0] = s
+        s = dict(log=[], recvs=0, max_recvs=2, permits=[]); cur[0] = s
         # arbitrary stream state: CLOSE seen or not; a cached DATA frame with unread bytes or none
         closed = ex.choose(2, 'close_received') == 0
         cache = none(); cached = None
         if ex.choose(2, 'cached_frame') == 0:
             cached = BufV(ex, 'cached'); ex.assume(z3.And(cached.len.e >= 1, cached.len.e <= cached.cap.e, cached.cap.e <= 65535))
             hdr = mk.tuple_struct(r'zksync_consensus_network::mux::header::Header', Num(0b0100000000000000, 16))
-            cache = some(mk.adt(r'zksync_consensus_network::mux::reusable_stream::Frame', header=hdr, data=some(cached), _permit=none()))
+            pv_ = PermitV(cached); s['permits'].append(pv_)
+            cache = some(mk.adt(r'zksync_consensus_network::mux::reusable_stream::Frame', header=hdr, data=some(cached), _permit=some(pv_)))
         rrs = mk.adt(r'zksync_consensus_network::mux::reusable_stream::ReadReusableStream', cache=cache, recv=Opaque('frame_channel'), close_received=closed)
         stream = mk.tuple_struct(r'zksync_consensus_network::mux::transient_stream::ReadStream', BoxV(rrs))
         dst = BufV(ex, 'dst'); ex.assume(z3.And(dst.len.e <= dst.cap.e, dst.cap.e <= 65535))
@@ -116,7 +131,7 @@ def run(rep, db, tier):
         r = coro.run_async(ex, key, [Ref(cell), Ref(Cell(Opaque('ctx'))), Ref(Cell(dst))])
         post = fld(cell.v, '0')
         while isinstance(post, (Ref, BoxV)): post = post.get() if isinstance(post, Ref) else post.cell.v
-        return r, closed, cached, dst, pre_len, post, list(s['log'])
+        return r, closed, cached, dst, pre_len, post, list(s['log']), list(s['permits'])
     try:
         res = explore(ex, body, budget_s=900)
     except (Unmodelled, BoundExceeded, KeyError) as u:
@@ -135,7 +150,7 @@ def run(rep, db, tier):
             st, m = solve(pc, None)
             if st == 'sat': viol.setdefault('read:' + panic_key(val), (f'ReadStream::read_exact panics: {val[0]} at {val[1]}', m))
             continue
-        r, closed, cached, dst, pre_len, post, log = val
+        r, closed, cached, dst, pre_len, post, log, permits = val
         evs = [e[0] for e in log]
         if closed:
             need(pc, 'read:reads-past-close', 'after CLOSE was received read_exact still takes frames (it would swallow data of the next stream on this reusable stream)', z3.BoolVal('recv' not in evs and 'push' not in evs))
@@ -160,7 +175,14 @@ def run(rep, db, tier):
         # frames with unread data are kept, in the cache, for the next read
         frames = [e[2] for e in log if e[0] == 'frame' and e[1] == 'data'] + ([cached] if cached is not None else [])
         post_cache = fld(post, 'cache')
-        pc_buf = deref_all(fld(post_cache.fields[0], 'data').fields[0]) if post_cache.variant == 1 and fld(post_cache.fields[0], 'data').variant == 1 else None
+        pc_buf = find_buf(post_cache) if post_cache.variant == 1 else None
+        # flow control: the read permit of a frame (its share of read_frame_count / read_buffer_size) is given back exactly when the
+        # frame's data has been consumed completely — never while unread bytes of it are still held (cached) by the stream
+        for pm in permits:
+            if pm.dropped_at is not None:
+                need(pc, 'read:permit-released-early', 'the read permit of a DATA frame is released while unread bytes of the frame are still held by the stream (received-but-unconsumed data is no longer counted against read_buffer_size / read_frame_count)', pm.dropped_at[0].e == 0)
+            elif r != 'pending' and pm.buf is not pc_buf:
+                need(pc, 'read:permit-leaked', 'a DATA frame is gone but its read permit was never released (the intake budget shrinks for good)', z3.BoolVal(False))
         for fb in frames:
             if fb is pc_buf: continue
             if r == 'pending': continue
@@ -179,6 +201,26 @@ def run(rep, db, tier):
         rep.add(F.Obligation(name, 'inconclusive', 'no path moves data (vacuous)')); return
     rep.add(F.Obligation(name, 'violated' if viol else 'discharged', paths=len(res), wall_s=round(time.time() - t0, 1)))
     rep.samples.append(f'ReadStream::read_exact: {len(res)} paths, {moved_paths} move data')
+
+
+class PermitV:
+    """the ReadPermit of one inbound frame (count + size semaphore permits); dropping it returns the frame's share of the intake budget"""
+    def __init__(self, buf): self.buf = buf; self.dropped_at = None
+    def py_clone(self, ex): return self
+    def __repr__(self): return f'ReadPermit<{self.buf}>'
+
+
+def find_buf(v, depth=0):
+    """the BufV held somewhere inside a value (representation-independent view of the cached rest of a frame)"""
+    if isinstance(v, BufV): return v
+    if depth > 6: return None
+    if isinstance(v, Ref): return find_buf(v.get(), depth + 1)
+    if isinstance(v, BoxV): return find_buf(v.cell.v, depth + 1)
+    if isinstance(v, Agg):
+        for f in v.fields:
+            r = find_buf(f, depth + 1)
+            if r is not None: return r
+    return None
 
 
 class SliceOf:
